@@ -86,6 +86,40 @@ def run_C10(ctx): exec_run(ctx, "C10", 8)
 def run_C13(ctx): exec_run(ctx, "C13", 8)
 
 
+def probe_f7(ctx, k, limit_s):
+    """run the reference journal on a long-form length word 2^k in a child process under a wall-clock and address-space limit"""
+    cmd = "ulimit -v 6000000; exec %s probe-f7 --k %d" % (driver.VH, k)
+    t0 = driver.time.time()
+    rc, out = driver.sh(["bash", "-c", cmd], timeout=limit_s, env=driver.GOENV)
+    dt = driver.time.time() - t0
+    ctx.evaluations += 1
+    ctx.notes.append("probe-f7 k=%d: rc=%s wall=%.1fs %s" % (k, rc, dt, out.strip().split("\n")[-1][:160]))
+    return rc, out, dt
+
+
+def run_C03(ctx):
+    ref_run(ctx, "fuzzcrash", ["fuzzcrash", "--n", n_cases(ctx, 2500, 150000)],
+            "every entry point on random bytes / malformed programs / hostile journal operands / generated programs incl. calls to 0x64-0x66, all 13 forks, inside a panic boundary; "
+            "follow-up call must be announced at depth 0, no call left open", oracle_prefix="C03")
+    exec_run(ctx, "C03", 0, quick=400, thorough=20000)
+    corr_run(ctx, "abi", ["abi", "--n", n_cases(ctx, 1000, 50000)], "Artela precompiles under all call kinds (a panic shows as a difference from the model, which never panics)",
+             nontrivial=lambda c: len(c["input"]) > 0)
+    # known finding F7: the reference journal's work is unbounded; beyond ~2^27 bytes it does not return in reasonable time / memory
+    rc, out, dt = probe_f7(ctx, 27, 6)
+    if rc != 0 or dt > 4:
+        if ctx.is_known("F7"):
+            ctx.known_finding("F7", "VRJNAL on a long-form length word 2^27+1 did not finish within %.1f s / 6 GB for its flat 800 gas (rc=%s)" % (dt, rc))
+        else:
+            ctx.violation("probe_f7", {"kind": "reference journal does not return for a storage word encoding a huge length", "k": 27, "rc": rc, "output": out[-1000:]})
+
+
+def run_C20(ctx):
+    ref_run(ctx, "workscan", ["workscan"], "state reads (counting StateDB) and allocated bytes per journal instruction / Artela precompile call with length fields 2^5..2^16 (2^22 thorough)",
+            oracle_prefix="C20")
+    corr_run(ctx, "journal", ["journal", "--n", n_cases(ctx, 800, 40000)], "Model/Journal.v decoders vs the instructions (the work formulas are about these functions)",
+             nontrivial=lambda c: len(c.get("steps") or []) > 1, has_oracle=True)
+
+
 EXEC_RULE = ("scenario = 4 mutually calling generated contracts (snippet grammar incl. all call kinds, value transfers, SSTORE/LOG/CREATE/CREATE2/SELFDESTRUCT, "
              "journal instructions, calls to precompiles 0x04 and 0x64-0x66, early exits) x 6 entry points x forks Byzantium..Cancun x random Aspect bindings "
              "(0-2 Aspects per join point, provider errors) x per-firing Aspect behaviour (burn 0/small/more than available, return data, out-of-gas / revert-text / generic failure) "
@@ -224,4 +258,32 @@ PROPS.update({
     "C13": _exec_prop(run_C13, "Coq theorems (transfer recorded with balances read before and after the host transfer, under the frame's own node) + frame correspondence + wrapping-transfer oracle",
                       "Theorems in Coq: the frame logic records the sender's and recipient's balances read from the state immediately before and after whatever the host transfer function does, in that order, under the index of the node just added; "
                       "entering/leaving a call writes nothing else to the journal. The harness installs a wrapping transfer function and compares StateChanges.Balance of every address with the balances it saw."),
+})
+
+PROPS.update({
+    "C03": {
+        "run": run_C03,
+        "technique": "Coq theorems (journal instructions and Artela precompiles never panic for any operand/memory/storage/payload; call tree closed after every entry point) + crash fuzzing inside a panic boundary",
+        "level_text": "Theorems in Coq with Go panics as a first-class outcome of the modelled functions: every journal instruction (any opcode byte 0xe0-0xe7, operand words up to 2^256-1, memory, storage, tracer state) and every call kind / payload "
+                      "to 0x64-0x66 ends normally or with an error; every CALL/CREATE entry point returns with the call tree well formed and the cursor at rest for every outcome. For the inherited instruction set absence of panics is the premise "
+                      "'go-ethereum v1.12.0 does not panic', tied by C01's identity theorems. The real entry points are fuzzed (random bytes, malformed and generated programs, boundary journal operands, Artela precompile payloads, 13 forks) "
+                      "inside a recover boundary, followed by a depth-0 follow-up call. Known finding F7 (unbounded reference journal) is probed in a child process.",
+        "level_note": COMMON_NOTE + "Modelled: vm/instructions.go:926-1140, vm/contracts.go:1080-1193, vm/evm.go frame logic. Not modelled: Go runtime fatal errors other than through the F7 probe.",
+        "rule": "4 generator classes (random bytes with 0xe7 masked, one hostile journal instruction over the boundary word set {0,1,31,32,33,2^63-1,2^63,2^64-1,2^64,2^255,2^256-1,2^40,small}, malformed programs, grammar programs with journal "
+                "snippets and calls to precompiles 1-9 and 0x64-0x66) x 6 entry points x 13 forks x join points on/off; non-trivial = any case; distinct = distinct (fork, entry, codes, input)",
+        "modelled": ["vm/instructions.go:926-1140", "vm/contracts.go:1080-1193", "vm/evm.go:238-664"],
+        "assumptions": ["go-ethereum v1.12.0's own instructions do not panic (inherited code, identical by C01_inherited_identical)"],
+    },
+    "C20": {
+        "run": run_C20,
+        "technique": "Coq theorems (work formulas of the journal decoders and ABI decoder; refutation witness for the reference journal) + counting-StateDB / allocation sweep over length fields 2^k",
+        "level_text": "Theorems in Coq: the value journal reads one slot and copies at most 32 bytes; memory strings copied by the key journals lie within the frame's memory; the context-write precompile returns sub-slices of its calldata; "
+                      "the reference journal performs 1 + ceil(len/32) reads with len taken from a contract-controlled storage word — the bound by a fixed multiple of the flat 800 gas is REFUTED (theorem with witness, known finding F7) and the weaker bound by the encoded length is proved. "
+                      "A sweep with a counting StateDB and allocation accounting runs each journal instruction and the context-write precompile with length fields 2^5..2^16 (2^22 thorough).",
+        "level_note": COMMON_NOTE + "For the inherited opcodes the statement is inherited from go-ethereum v1.12.0 (C01 identity theorems) and not re-proved. Allocation is measured with runtime.MemStats (TotalAlloc delta).",
+        "rule": "6 instruction/precompile shapes x k = 5..16 (22): a length field of 2^k placed where it could drive reads, copies or allocations; bound checked: reads <= gas/100 + 2, allocated bytes <= 1 MiB + 16 x memory size; "
+                "non-trivial = any case; distinct = (shape, k)",
+        "modelled": ["vm/instructions.go:926-1140", "vm/contracts.go:1161-1193", "vm/gas_table.go makeGasJournal"],
+        "assumptions": [],
+    },
 })
